@@ -4,6 +4,10 @@ GROUPS = [
     dict(name="fe_start", harness="harness/C08_fe.c", enforce="fe_start", replace=["fe_reset_noisestats"], allow_no_body=["*"], min_postconditions=2, unwind=18, defines=["SSW_MEMSET_LOOP"]),
     dict(name="decoder_start_utt", harness="harness/C08_decoder.c", enforce="decoder_start_utt", allow_no_body=["*"], min_postconditions=3,
          replace=["acmod_start_utt", "lattice_free", "ptmr_reset", "ptmr_start"]),
+    dict(name="cmn_set_repr", harness="harness/C08_cmn.c", entry="r_cmn_set_repr", allow_no_body=["*"], unwind=8, defines=["SSW_MEMSET_LOOP"], unwindset="ssw_memset.0:14",
+         replay={"name": "cmn_set_repr_replay", "harness": "harness/C08_cmn.c", "entry": "r_cmn_set_repr", "native_replay": True, "canary": False, "allow_no_body": ["*"], "unwind": 8,
+                 "native_sources": "ALL", "native_exclude": ["cmn.c"]},
+         bounded="3 coefficients, state texts of <= 5 characters over digits and commas, symbolic previous state; atof is a one-digit stand-in"),
 ]
 
 ASSUMPTIONS = [
@@ -11,8 +15,8 @@ ASSUMPTIONS = [
     "fe_start is checked on a frame size of 4 (the overflow buffer is cleared by a byte loop; CBMC's memset with a symbolic length mis-modelled the clear)",
 ]
 HAND_LEMMAS = ["determinism: with every per-utterance field reset to a constant and configuration fields outside the frame, the state after *_start* is a function of the configuration only; that the RESULT is a function of that state and the audio is NOT machine checked"]
-NOT_COVERED = ["fsg_search_start / fsg_history_reset / feat live-buffer reset / cmn_live state", "cmn_set_repr (seeded change C08_A) -- string parsing with atof", "completeness of the field classification (a mechanical struct-field scan was planned, not built)", "two decoders in one process (writable globals scan not built)", "result determinism end to end"]
+NOT_COVERED = ["fsg_search_start / fsg_history_reset / feat live-buffer reset / cmn_live state", "completeness of the field classification (a mechanical struct-field scan was planned, not built)", "two decoders in one process (writable globals scan not built)", "result determinism end to end"]
 CLAIM = dict(
-    text="Reset contracts on three start functions, with the pre-state fully symbolic: after acmod_start_utt every per-utterance field of the acoustic model object (state, both ring indices and counts, output frame, senone-score frame, active senone count, mgau frame index) has a fixed value; after fe_start the overflow buffer is empty and zeroed, pre-emphasis history cleared and noise statistics reset; after an in-protocol decoder_start_utt the previous utterance's lattice, best link, posterior, hypothesis string, JSON line and state aligner are gone and the utterance counter advanced. Frame clauses prove nothing else is written. End-to-end isolation and determinism are NOT decided.",
+    text="Reset contracts on three start functions, with the pre-state fully symbolic: after acmod_start_utt every per-utterance field of the acoustic model object (state, both ring indices and counts, output frame, senone-score frame, active senone count, mgau frame index) has a fixed value; after fe_start the overflow buffer is empty and zeroed, pre-emphasis history cleared and noise statistics reset; after an in-protocol decoder_start_utt the previous utterance's lattice, best link, posterior, hypothesis string, JSON line and state aligner are gone and the utterance counter advanced. Setting the channel-normalisation state from text (cmn_set_repr) determines EVERY coefficient of mean and accumulator from the text alone, whatever the state before (bounded: 3 coefficients, texts <= 5 characters). Frame clauses prove nothing else is written. End-to-end isolation and determinism are NOT decided.",
     note="three reset functions only; search-level resets, CMN, field-classification completeness, globals and end-to-end determinism not covered; trusted: CBMC 6.11",
     technique="CBMC function contracts (goto-instrument --dfcc) with explicit assigns clauses over a fully symbolic pre-state")
